@@ -42,7 +42,8 @@ PROBES = ["card skipped by sampler (all its contests finished)", "card listing n
           "second draw on the same contests with new numbers", "list sorted in place between draws",
           "size beyond the number of real CVRs (phantoms needed)", "sample sizes handed over as numpy integers",
           "sample size above 256", "contest added in place to cards already drawn from",
-          "cards carry sampling probabilities from an earlier estimate"]
+          "cards carry sampling probabilities from an earlier estimate",
+          "continued call without a contest that needs no more cards"]
 
 
 class SchedPrng:
@@ -136,7 +137,7 @@ def generate(rng, tier):
                 cur[cid] = min(avail, cur[cid] + rng.randint(0, max(1, avail // 2)))
         nxt.append(cur)
     return {"contests": contests, "cards": cards, "alt": alt, "numbering": numbering, "sizes": sizes, "sizes_next": nxt,
-            "size_type": rng.pick(["int", "int", "np"]),
+            "size_type": rng.pick(["int", "int", "np"]), "drop_contest": rng.pick([0, 0, 1, 2, 3]),
             # sampling probabilities left on the cards by an earlier sample-size estimate (a documented side effect of it)
             "p_values": ([rng.pick([0, 0, 0.25, 1, None]) for _ in range(ncards)] if rng.chance(0.25) else None),
             "late_contest": ({"cid": rng.pick(cids), "cards": rng.sample(range(ncards), rng.randint(1, min(ncards, 4))),
@@ -306,6 +307,26 @@ def execute(case):
                 out.violate("C07.g", "continue/sampled-flag", "sampled flags do not match the continued selection")
                 break
             prev = got
+        # a contest that needs no more cards is left out of the next call (the audit goes on for the others): the cards
+        # already examined stay in the sample, and the whole list comes back in sample-number order
+        if len(contests) >= 2 and prev and case.get("drop_contest"):
+            gone = sorted(contests)[case["drop_contest"] % len(contests)]
+            rest = {cid: con for cid, con in contests.items() if cid != gone}
+            sz_rest = {cid: con.sample_size for cid, con in rest.items()}
+            r_idx, r_thr, _p = reference(cards, nums, {cid: int(v) for cid, v in sz_rest.items()})
+            want = sorted(set(prev) | set(r_idx), key=lambda i: nums[i])
+            out.units["sampler_calls"] += 1
+            try:
+                got = [int(i) for i in ns.CVR.consistent_sampling(cvr_list=cvrs, contests=rest, sampled_cvr_indices=list(prev))]
+                out.ev("continued-without", [gone, got])
+                out.probe("continued call without a contest that needs no more cards")
+                if got != want:
+                    out.violate("C07.g", "continue/contest-left-out" + ("" if sorted(got) != sorted(want) else "/order"),
+                                f"continuing from {prev} without contest {gone} gave {got}; the cards already examined plus the "
+                                f"remaining contests' prefixes, in sample-number order, are {want}")
+            except Exception as e:
+                out.raised("consistent_sampling(continue, contest left out)", e)
+                out.violate("C07.g", f"continue/contest-left-out/raised-{type(e).__name__}", f"continuing without contest {gone} raised {e!r}")
         for cid, con in contests.items():  # back to the state after the first call (clauses e, f look at it)
             con.sample_size = sizes[cid]
             con.sample_threshold = thr0[cid]
